@@ -601,3 +601,12 @@ impl fmt::Display for Backtrace {
         Ok(())
     }
 }
+
+/// Verification hook: Kani proof harnesses for this module's private items (text lives outside
+/// this repository, in `$SALSA_VERIF_HARNESS_DIR`).
+#[cfg(kani)]
+#[allow(dead_code, unused_imports)]
+pub(crate) mod verif {
+    use super::*;
+    include!(concat!(env!("SALSA_VERIF_HARNESS_DIR"), "/active_query.rs"));
+}
